@@ -176,6 +176,12 @@ func secretconn(r *vh.Run) {
 				case "trunc":
 					ab.chunks[i] = ab.chunks[i][:len(ab.chunks[i])/2]
 					ab.chunks = ab.chunks[:i+1]
+				case "replay": // frame i is put in the place of frame j
+					j := int(nodeimpl.Atoi(w[3]))
+					if j >= len(ab.chunks) {
+						return "no-such-frame"
+					}
+					ab.chunks[j] = append([]byte{}, ab.chunks[i]...)
 				}
 				return "ok"
 			}
@@ -209,6 +215,33 @@ func secretconn(r *vh.Run) {
 		}
 		fail := func(cls, detail, got, want string) {
 			r.Fail(vh.Failure{Class: cls, Detail: detail, Ops: append([]string{}, history[1:]...), Got: got, Want: want})
+		}
+		if s < 6 {
+			// directed: a recorded frame replayed 128 / 256 frames later (where a nonce counter that
+			// loses its carry comes round again); whatever the distance, the replay must fail
+			dist := []int{128, 256, 128, 127, 129, 64}[s]
+			k := R.Intn(3)
+			for f := 0; f < dist+k+2; f++ {
+				do("write 1024")
+			}
+			do(fmt.Sprintf("mitm replay %d %d", k, dist+k))
+			good := 0
+			detected := false
+			for f := 0; f < dist+k+2; f++ {
+				res := do("read 1024")
+				if res == "error" {
+					detected = true
+					break
+				}
+				if strings.HasPrefix(res, "data") {
+					good++
+				}
+			}
+			r.Count("directed-replay")
+			if !detected || good != dist+k {
+				fail("replayed-frame-accepted", fmt.Sprintf("frame %d, recorded and put in the place of frame %d, was accepted by the receiver (reads before an error: %d)", k, dist+k, good), fmt.Sprint(good), fmt.Sprint(dist+k))
+			}
+			continue
 		}
 		written, received := 0, 0 // bytes A wrote / bytes B's caller obtained (as reported by n)
 		onWire := 0               // frames on the wire
@@ -360,7 +393,7 @@ func mconn(r *vh.Run) {
 			n := R.Range(3, 12)
 			var msgs [][]byte
 			for i := 0; i < n; i++ {
-				sz := []int{1, 10, 1023, 1024, 1025, 2048, 3000, 10000, 40000}[R.Intn(9)]
+				sz := []int{1, 10, 1021, 1023, 1024, 1025, 2045, 2048, 3000, 3069, 10000, 40000}[R.Intn(12)] // 1021/2045/3069: wire length exactly k*1024
 				m := stream(int(d.ID)*100000+i*7919, sz)
 				m[0] = byte(i) // sequence number inside the channel
 				msgs = append(msgs, m)
